@@ -99,7 +99,7 @@ class ProgramGen(object):
                  'globaldef', 'noeol', 'fstring', 'walrus', 'match', 'delvar', 'asyncfor', 'asynccomp', 'decoasync',
                  'docstr_in_def', 'deepnest', 'unicode', 'starunpack', 'yieldgen', 'condexpr', 'withas', 'stdoutwrite',
                  'elifchain', 'commentbody', 'parenwith', 'tripledq', 'mlstr_trailing', 'raises_expected',
-                 'raises_compound']
+                 'raises_compound', 'markercomment', 'bscomment', 'padded']
 
     def __init__(self, rng, kinds=None, allow_async=True):
         self.rng = rng
@@ -293,6 +293,17 @@ class ProgramGen(object):
             st.forced_want = ['Traceback (most recent call last):', 'KeyError: %d' % i]
             st.expected_exc = 'KeyError'
             return st
+        if k == 'padded':
+            # output that ends in blanks (a padded table cell): the want line carries them too
+            return S(['print("t%d   ") or quiet(%d)' % (i, i)], k, i, is_expr=True)
+        if k == 'bscomment':
+            # a complete statement whose trailing comment ends in a backslash (no line joining)
+            return S(['emit(%d)  # i.e. C:\\data\\' % i], k, i, is_expr=True)
+        if k == 'markercomment':
+            # a comment that starts like one of the force-disable markers, but not on the first line of the doctest
+            word = r.choice(['failing', 'FAILING', 'script', 'SCRIPT', 'disable', 'unstable', 'slow_doctest'])
+            return S(['quiet(%d)' % i, '# %s inputs are handled below (%d)' % (word, i), 'quiet(-%d)' % i], k, i,
+                     is_expr=True, ps1_lines=(1, 2))
         if k == 'mlstr_trailing':
             # significant trailing blanks inside a string literal
             self.defined_vars.append('s%d' % i)
